@@ -338,26 +338,107 @@ def _mset_diff(c, r, model_ix):
     return "candidate multiset differs from the model"
 
 
-def evaluate(cases, tag="C06"):
-    """-> list of verdict dicts: {ok, clause, impl, model, info_list_differs, info_sel_differs}"""
+def _slice_len(n, cap):
+    return len(range(n)[:cap])
+
+
+def _ukey(a, b):
+    return (a, b) if a <= b else (b, a)
+
+
+def precheck(c, r):
+    """Python mirror of the row clauses (closed / count / mirrored with identical scores / multiplicities), used to find a
+    concrete failing batch cheaply and to keep pathological outputs away from Coq.  Returns None or (batch, clause).
+    The authoritative verdict is the Coq checker's whenever the case is small enough to be sent there."""
+    from collections import Counter
+    if c.get("light") or not r["ok"]:
+        return None
+    n_cols = len(c["cols"])
+    if len(r["cands"]) > n_cols * (n_cols + 1) + 2 * n_cols + 8:
+        return (-1, "get_combinations_from_columns returns %d candidates for %d columns (more than every requested pair listed twice)"
+                % (len(r["cands"]), n_cols))
+    cols = set(c["cols"])
+    const = c["heuristic"] == "Constant"
+    mult = 1 if const else 2
+    ucands = Counter(_ukey(a, b) for a, b in r["cands"])
+    for bi, b in enumerate(r["batches"]):
+        n = _slice_len(len(r["cands"]), b["cap_after"])
+        rows = b["rows"]
+        for a, b_, s in rows:
+            if a not in cols or b_ not in cols:
+                return (bi, "row (%r, %r) mentions a name that is not a column of this batch's frame" % (a, b_))
+        if b["nrows"] != mult * n:
+            return (bi, "the batch returns %d rows; %d x len(candidates[:cap]) = %d expected (|candidates| = %d, cap = %d)"
+                    % (b["nrows"], mult, mult * n, len(r["cands"]), b["cap_after"]))
+        cnt = Counter((a, b_, s) for a, b_, s in rows)
+        if const:
+            for (a, b_, s) in cnt:
+                if s != "0":
+                    return (bi, "Constant heuristic: row (%r, %r) has a non-zero score" % (a, b_))
+        else:
+            for (a, b_, s), k in cnt.items():
+                if cnt.get((b_, a, s), 0) != k:
+                    return (bi, "row (%r, %r, score %s) occurs %d time(s) but its mirror (%r, %r) with the identical score occurs %d time(s)"
+                            % (a, b_, s, k, b_, a, cnt.get((b_, a, s), 0)))
+                if a == b_ and k % 2:
+                    return (bi, "self-pair (%r, %r) has an odd number of rows with score %s" % (a, b_, s))
+        ur = Counter(_ukey(a, b_) for a, b_, s in rows)
+        for k_, v in ur.items():
+            if v > mult * ucands.get(k_, 0):
+                return (bi, "the pair {%r, %r} has %d row(s) but is listed %d time(s) among the candidates" % (k_[0], k_[1], v, ucands.get(k_, 0)))
+    return None
+
+
+def _coq_sized(c, r):
+    """Only observations of plausible size go to Coq (the checker is quadratic in the rows of a batch)."""
+    if c.get("light"):
+        return True
+    n_cols = len(c["cols"])
+    if len(r["cands"]) > n_cols * (n_cols + 1) + 2 * n_cols + 8:
+        return False
+    return all((not b.get("truncated")) and b["nrows"] <= 2 * len(r["cands"]) + 8 for b in r["batches"])
+
+
+PRECHECK_OBLIGATION = ("rows of the batch against the candidate list and cap (Python mirror of rows_okb: closed, count, mirrored with "
+                       "identical scores, multiplicities)")
+CHECK_OBLIGATION = "C06_check (cands_okb / rows_okb) on the implementation's candidate list and rows"
+MSET_OBLIGATION = ("correspondence:candidate list = transcription as a multiset of unordered pairs "
+                   "(C06_target_only_once / C06_pairwise_multiplicity are about the transcription)")
+LAST_BROKEN = []      # vlib.Broken raised by the Coq evaluation of the last evaluate() calls (reported by check)
+
+
+def _impl_view(r):
+    return dict(cands=r["cands"][:400], cap_after=[r["cap_after_cands"]] + [b["cap_after"] for b in r["batches"]],
+                nrows=[b["nrows"] for b in r["batches"]], rows=[b["rows"][:400] for b in r["batches"]])
+
+
+def evaluate(cases, tag="C06", use_coq=True):
+    """-> list of verdict dicts {ok, clause, obligation, impl, model, list_differs, sel_differs, ncands, res, by}"""
     res = vlib.run_impl("impl_c06.py", {"cases": cases})["results"]
+    out = [None] * len(cases)
+    pre = [None] * len(cases)
     exprs, meta = [], []
     for i, (c, r) in enumerate(zip(cases, res)):
         if not r["ok"]:
-            continue
-        if c.get("light"):
-            exprs.append(_light_expr(c))
-            meta.append((i, "light", None))
-        else:
-            e, hs = _expr(c, r)
-            exprs.append(e)
-            meta.append((i, "full", hs))
-    vals = vlib.coq_eval(tag, HEADER, exprs, shard=25, timeout=1500, jobs=12) if exprs else []
-    out = [None] * len(cases)
-    for i, (c, r) in enumerate(zip(cases, res)):
-        if not r["ok"]:
             out[i] = dict(ok=False, clause="the call terminates normally", obligation="impl-raises", impl=r["error"], model=None,
-                          list_differs=False, sel_differs=False, ncands=None, res=r)
+                          list_differs=False, sel_differs=False, ncands=None, res=r, by="impl")
+            continue
+        pre[i] = precheck(c, r)
+        if use_coq and _coq_sized(c, r):
+            if c.get("light"):
+                exprs.append(_light_expr(c))
+                meta.append((i, "light", None))
+            else:
+                e, hs = _expr(c, r)
+                exprs.append(e)
+                meta.append((i, "full", hs))
+    vals = []
+    if exprs:
+        try:
+            vals = vlib.coq_eval(tag, HEADER, exprs, shard=25, timeout=600, jobs=12)
+        except vlib.Broken as b:
+            LAST_BROKEN.append(b)
+            vals, meta = [], []
     for (i, kind, hs), v in zip(meta, vals):
         c, r = cases[i], res[i]
         if kind == "light":
@@ -368,16 +449,17 @@ def evaluate(cases, tag="C06"):
             out[i] = dict(ok=good, clause="3mr clamp: number of candidates / effective cap / number of rows",
                           obligation="correspondence:clamp (candidates, effective cap, row count)",
                           impl=dict(ncands=obs[0], caps=obs[1], nrows=obs[2]), model=dict(ncands=ncands, cap=cap2, nrows=mult * nsel),
-                          list_differs=obs[0] != ncands, sel_differs=False, ncands=ncands, res=None)
+                          list_differs=obs[0] != ncands, sel_differs=False, ncands=ncands, res=None, by="coq")
             continue
-        chk, comp, list_eq, (mset_eq, model_ix), sel_same, (ncm, nsel, pre) = v
+        chk, comp, list_eq, (mset_eq, model_ix), sel_same, (ncm, nsel, precond) = v
         if comp is None:
             cands_ok, cap_ok, rows_ok = True, True, [True] * len(r["batches"])
         else:
             cands_ok, cap_ok, rows_ok = comp[1]
         good = bool(chk)
         clause = None
-        if not pre:
+        obligation = CHECK_OBLIGATION
+        if not precond:
             clause = "harness: case violates the precondition (duplicate-free columns containing the label)"
             good = False
         elif not cands_ok:
@@ -386,57 +468,115 @@ def evaluate(cases, tag="C06"):
             clause = "args.combination_number_upper_bound after the call is not the (clamped) cap"
         elif not all(rows_ok):
             bi = rows_ok.index(False)
-            clause = "batch %d: %s" % (bi, _diagnose(c, r, bi))
+            clause = "batch %d: %s" % (bi, pre[i][1] if pre[i] and pre[i][0] == bi else _diagnose(c, r, bi))
         elif not chk:
             clause = "C06_check rejects the observation"
         elif not mset_eq:
             good = False
             clause = _mset_diff(c, r, model_ix)
-        obligation = "C06_check (cands_okb / rows_okb) on the implementation's candidate list and rows"
-        if chk and not mset_eq:
-            obligation = ("correspondence:candidate list = transcription as a multiset of unordered pairs "
-                          "(C06_target_only_once / C06_pairwise_multiplicity are about the transcription)")
-        out[i] = dict(ok=good, clause=clause, obligation=obligation,
-                      impl=dict(cands=r["cands"], cap_after=[r["cap_after_cands"]] + [b["cap_after"] for b in r["batches"]],
-                                rows=[b["rows"] for b in r["batches"]]) if not good else None,
+            obligation = MSET_OBLIGATION
+        out[i] = dict(ok=good, clause=clause, obligation=obligation, impl=_impl_view(r) if not good else None,
                       model=dict(n_candidates=ncm, rows_expected_per_batch=(1 if c["heuristic"] == "Constant" else 2) * nsel),
-                      list_differs=not list_eq, sel_differs=(hs and not all(sel_same)), ncands=ncm, res=r)
+                      list_differs=not list_eq, sel_differs=(hs and not all(sel_same)), ncands=ncm, res=r, by="coq",
+                      precheck_disagrees=(good and pre[i] is not None))
+    for i, (c, r) in enumerate(zip(cases, res)):
+        if out[i] is not None:
+            continue
+        # no Coq verdict (too large for the checker, Coq evaluation unavailable, or use_coq=False): the Python mirror decides
+        if pre[i] is not None:
+            bi, why = pre[i]
+            out[i] = dict(ok=False, clause=("batch %d: %s" % (bi, why)) if bi >= 0 else why, obligation=PRECHECK_OBLIGATION,
+                          impl=_impl_view(r), model=None, list_differs=False, sel_differs=False, ncands=len(r["cands"]), res=r, by="python")
+        else:
+            out[i] = dict(ok=True, clause=None, obligation=PRECHECK_OBLIGATION, impl=None, model=None, list_differs=False,
+                          sel_differs=False, ncands=len(r["cands"]), res=r, by="python")
     return out
 
 
-def shrink(case, obligation, rounds=8):
-    """Greedy: drop columns / batches / rows / lower the cap while the same check still rejects."""
+def _variants(cur):
+    variants = []
+    others = [x for x in cur["cols"] if x != cur["label"]]
+    for x in others:
+        variants.append(dict(cur, cols=[y for y in cur["cols"] if y != x]))
+    for parts in (2, 4):
+        h = len(others) // parts
+        if h >= 2:
+            for k in range(parts):
+                keep = set(others[k * h:(k + 1) * h])     # keep one part, and (second variant) drop one part
+                variants.append(dict(cur, cols=[y for y in cur["cols"] if y == cur["label"] or y in keep]))
+                variants.append(dict(cur, cols=[y for y in cur["cols"] if y not in keep]))
+    if cur["cap"] > 0:
+        variants.append(dict(cur, cap=cur["cap"] // 2))
+        variants.append(dict(cur, cap=cur["cap"] - 1))
+    if cur["batches"] > 2:
+        variants.append(dict(cur, batches=2))
+    if cur["batches"] > 1:
+        variants.append(dict(cur, batches=1))
+    if cur["nrows"] > 4:
+        variants.append(dict(cur, nrows=4))
+    return variants
+
+
+def shrink(case, verdict, rounds=5):
+    """Greedy: drop columns / batches / rows / lower the cap while the same kind of check still rejects.  When the failure is
+    visible to the Python mirror the rounds run without Coq (faster); the result is always re-judged with Coq by the caller."""
     cur = dict(case)
+    python_visible = verdict["by"] == "python" or (verdict["obligation"] == CHECK_OBLIGATION and (verdict["clause"] or "").startswith("batch "))
     for _ in range(rounds):
-        variants = []
-        others = [x for x in cur["cols"] if x != cur["label"]]
-        for x in others:
-            variants.append(dict(cur, cols=[y for y in cur["cols"] if y != x]))
-        for parts in (2, 4):
-            h = len(others) // parts
-            if h >= 2:
-                for k in range(parts):
-                    keep = set(others[k * h:(k + 1) * h])     # keep one part, and (second variant) drop one part
-                    variants.append(dict(cur, cols=[y for y in cur["cols"] if y == cur["label"] or y in keep]))
-                    variants.append(dict(cur, cols=[y for y in cur["cols"] if y not in keep]))
-        if cur["cap"] > 0:
-            variants.append(dict(cur, cap=cur["cap"] // 2))
-            variants.append(dict(cur, cap=cur["cap"] - 1))
-        if cur["batches"] > 1:
-            variants.append(dict(cur, batches=1))
-        if cur["nrows"] > 4:
-            variants.append(dict(cur, nrows=4))
+        variants = _variants(cur)
         if not variants:
             break
-        try:
-            vs = evaluate(variants, tag="C06s")
-        except vlib.Broken:
-            break
-        bad = [v for v, o in zip(variants, vs) if o is not None and not o["ok"] and o["obligation"] == obligation]
+        # each variant in the same interpreter would inherit the previous variants' process state: keep the prelude, if any
+        vs = evaluate(variants, tag="C06s", use_coq=not python_visible)
+        if python_visible:
+            bad = [v for v, o in zip(variants, vs) if not o["ok"] and o["obligation"] == PRECHECK_OBLIGATION]
+        else:
+            bad = [v for v, o in zip(variants, vs) if not o["ok"] and o["obligation"] == verdict["obligation"]]
         if not bad:
             break
         cur = min(bad, key=lambda v: (len(v["cols"]), v["batches"], v["cap"], v["nrows"]))
     return cur
+
+
+def _strip(c):
+    return {k: v for k, v in c.items() if k != "prelude"}
+
+
+def localise(cases, i, verdict):
+    """Turn the failing case at position i of the run into a self-contained replay: alone if it fails alone, otherwise with the
+    shortest suffix of the process history (earlier cases of the same interpreter) that makes it fail.  Returns (case, verdict)."""
+    from concurrent.futures import ThreadPoolExecutor
+    c = _strip(cases[i])
+    alone = evaluate([c], tag="C06a")[0]
+    if not alone["ok"]:
+        small = shrink(c, alone)
+        if small != c:
+            o2 = evaluate([small], tag="C06a")[0]
+            if not o2["ok"]:
+                return small, o2
+        return c, alone
+    ks = []
+    k = 1
+    while k < i:
+        ks.append(k)
+        k *= 2
+    if i > 0:
+        ks.append(i)
+
+    def attempt(k):
+        cand = dict(c, prelude=[_strip(x) for x in cases[i - k:i] if not x.get("light")])
+        return cand, evaluate([cand], tag="C06h%d" % k)[0]
+    with ThreadPoolExecutor(max_workers=4) as ex:
+        tried = list(ex.map(attempt, ks[:8]))
+    for cand, o in tried:
+        if not o["ok"]:
+            o["clause"] = "%s  [needs the process history: the %d earlier call(s) in `prelude` ran in the same interpreter]" % (
+                o["clause"], sum(x["batches"] for x in cand["prelude"]))
+            return cand, o
+    verdict = dict(verdict)
+    verdict["clause"] = "%s  [observed at position %d of the run; not reproduced alone or with up to %d preceding cases]" % (
+        verdict["clause"], i, ks[-1] if ks else 0)
+    return cases[i], verdict
 
 
 def check(run, replay):
@@ -478,13 +618,15 @@ def check(run, replay):
         run.notes.append("%d case(s) outside the property's hypotheses (duplicate column names / label not a column) were skipped"
                          % (len(cases) - len(valid)))
         cases = valid
+    del LAST_BROKEN[:]
     verdicts = evaluate(cases)
+    coq_broken = list(LAST_BROKEN)
 
     hist = {"ncols": {}, "heuristic": {}, "tro": {}, "batches": {}, "mode": {}, "cap_binding": 0, "cap_zero_or_neg": 0,
             "label_is_relation_column": 0, "frames_with_relation_columns": 0, "impl_errors": 0, "rows_total": 0}
     nlist = nsel = 0
     reported = 0
-    for c, o in zip(cases, verdicts):
+    for ci, (c, o) in enumerate(zip(cases, verdicts)):
         nc = len(c["cols"])
         b = "%d-%d" % ((nc - 1) // 5 * 5 + 1, (nc - 1) // 5 * 5 + 5)
         hist["ncols"][b] = hist["ncols"].get(b, 0) + 1
@@ -511,17 +653,20 @@ def check(run, replay):
             if o["obligation"] == "impl-raises":
                 hist["impl_errors"] += 1
             if reported < 1 and replay is None and not c.get("light") and o["obligation"] != "impl-raises":
-                small = shrink(c, o["obligation"])
-                if small != c:
-                    o2 = evaluate([small], tag="C06s")[0]
-                    if not o2["ok"]:
-                        c, o = small, o2
+                c, o = localise(cases, ci, o)
             reported += 1
             run.violation("counterexample", o["obligation"], case=c, impl=o["impl"], model=o["model"], clause=o["clause"])
     nbad = sum(1 for o in verdicts if not o["ok"])
     run.oblige("correspondence:C06_check on implementation candidate lists and rows", nbad == 0,
                "" if nbad == 0 else "%d of %d cases rejected" % (nbad, len(cases)))
-    run.cov["cases_checked_in_coq"] = len(cases)
+    if coq_broken:
+        b0 = coq_broken[0]
+        run.oblige(b0.obligation, False, b0.detail[-1500:])
+        run.violation("broken-obligation", b0.obligation + " (verdicts of this run come from the Python mirror of the row clauses)",
+                      found_input=False, extra=b0.detail[-3000:])
+    run.cov["cases_checked_in_coq"] = sum(1 for o in verdicts if o["by"] == "coq")
+    run.cov["cases_judged_by_python_mirror_only"] = sum(1 for o in verdicts if o["by"] == "python")
+    run.cov["python_mirror_disagrees_with_coq_checker"] = sum(1 for o in verdicts if o.get("precheck_disagrees"))
     run.cov["candidate_list_order_differs_from_transcription_same_multiset"] = nlist - sum(
         1 for o in verdicts if o["list_differs"] and not o["ok"])
     run.cov["selection_differs_from_stable_sort_transcription"] = nsel
